@@ -151,3 +151,44 @@ package proto
 //@   ensures old(r.pos) <= r.pos && r.pos <= r.end
 //@ contract (c ColNullable) Row(i) (v) props(C06)
 //@   requires c.Values != nil && len(c.Nulls) == c.Values.nrows && 0 <= i && i < len(c.Nulls)
+
+// ---------------------------------------------------------------------------
+// String: one byte buffer + a (Start, End) position per row.
+// wfStr: every position lies inside the buffer; this is what makes Row(i) panic-free (C06).
+
+//@ spec func wfStr(c Val) Bool = forall k in 0..len(c.Pos) :: 0 <= c.Pos[k].Start && c.Pos[k].Start <= c.Pos[k].End && c.Pos[k].End <= len(c.Buf)
+
+//@ contract (c ColStr) Rows() (n) props(C01,C06,C16)
+//@   ensures n == len(c.Pos)
+//@ contract (c *ColStr) Reset() props(C16)
+//@   requires c != nil
+//@   modifies c.Buf, c.Pos
+//@   ensures len(c.Pos) == 0 && len(c.Buf) == 0 {empty-after-reset}
+//@ contract (c ColStr) Row(i) (s) props(C06)
+//@   requires wfStr(c) && 0 <= i && i < len(c.Pos)
+//@   ensures len(s) == c.Pos[i].End - c.Pos[i].Start
+//@ contract (c ColStr) RowBytes(i) (s) props(C06)
+//@   requires wfStr(c) && 0 <= i && i < len(c.Pos)
+//@ contract (c *ColStr) Append(v) props(C16)
+//@   requires c != nil && wfStr(c)
+//@   modifies c.Buf, c.Pos
+//@   ensures len(c.Pos) == old(len(c.Pos)) + 1 && wfStr(c) {appended-once}
+//@   ensures c.Pos[old(len(c.Pos))].End - c.Pos[old(len(c.Pos))].Start == len(v) {own-length}
+
+//@ -- DecodeColumn overwrites the column (it does not need a prior Reset) and leaves it well-formed.
+//@ -- The string length read from the stream has NO cap in the library: the allocation and overflow
+//@ -- obligations on it are known findings (see /verif/KNOWN_FINDINGS.txt).
+//@ contract (c *ColStr) DecodeColumn(r, rows) (err) props(C01,C06,C07,C16)
+//@   requires c != nil && r != nil && 0 <= rows && rows <= maxRowsInBLock
+//@   modifies c.Buf, c.Pos, contents(c.Buf), r.pos, r.failed, r.b.Buf
+//@   alloc 127 * 100000000 + 16 * 100000000
+//@   ensures err == nil ==> len(c.Pos) == rows {rows}
+//@   ensures err == nil ==> wfStr(c) {positions-inside-buffer}
+//@   ensures err == nil ==> r.failed == old(r.failed)
+//@   ensures old(r.pos) <= r.pos && r.pos <= r.end
+//@ loop 0 (i)
+//@   modifies c.Buf, c.Pos, *p, r.pos, r.failed, r.b.Buf
+//@   invariant 0 <= i && i <= rows && len(c.Pos) == i
+//@   invariant 0 <= p.Start && p.Start <= p.End && p.End <= len(c.Buf)
+//@   invariant forall k in 0..i :: 0 <= c.Pos[k].Start && c.Pos[k].Start <= c.Pos[k].End && c.Pos[k].End <= p.End
+//@   invariant r.failed == old(r.failed) && old(r.pos) <= r.pos && r.pos <= r.end
